@@ -39,25 +39,26 @@ var (
 // ---- world ----
 type world struct {
 	*nx.World
-	S          []common.Address // senders
-	T          []common.Address // plain targets
-	C          []common.Address // contract slots (code installed per case)
-	KM         common.Address   // contract that is a miner account (STAKE / UNSTAKE programs)
-	MN         common.Address   // main node contract (operator-node tx)
-	Auth       common.Address   // authority whose AUTH signature the attacker holds
-	AuthCD     map[common.Address][]byte
-	Auths      []common.Address            // authorities with harness-held keys: Auths[0] holds 10 tokens, Auths[1] 20000
-	AuthCDs    []map[common.Address][]byte // per authority: invoker contract -> AUTH calldata (v, r, s, commit) signed by its key
-	base       []common.Address
-	minerId    [][]byte // every miner id ever applied in this world
-	heights    map[uint64]bool
-	h          uint64
-	proposerId []byte
-	groupId    []byte
-	progDesc   map[string]interface{} // programs currently installed on C0..C2
-	tokenCode  bool                   // this world's bound token contract has code (minimal ERC20 over the balance slots)
-	kmOp       byte                   // custom opcode KM's current code runs first (0: none)
-	c0Arg      *big.Int               // amount C0's current code forwards to KM (nil: C0 does not call KM)
+	S            []common.Address // senders
+	T            []common.Address // plain targets
+	C            []common.Address // contract slots (code installed per case)
+	KM           common.Address   // contract that is a miner account (STAKE / UNSTAKE programs)
+	MN           common.Address   // main node contract (operator-node tx)
+	Auth         common.Address   // authority whose AUTH signature the attacker holds
+	AuthCD       map[common.Address][]byte
+	Auths        []common.Address            // authorities with harness-held keys: Auths[0] holds 10 tokens, Auths[1] 20000
+	AuthCDs      []map[common.Address][]byte // per authority: invoker contract -> AUTH calldata (v, r, s, commit) signed by its key
+	base         []common.Address
+	minerId      [][]byte // every miner id ever applied in this world
+	heights      map[uint64]bool
+	h            uint64
+	proposerId   []byte
+	groupId      []byte
+	progDesc     map[string]interface{} // programs currently installed on C0..C2
+	rewardFamily int                    // which miners share a reward account (see setupMiners)
+	tokenCode    bool                   // this world's bound token contract has code (minimal ERC20 over the balance slots)
+	kmOp         byte                   // custom opcode KM's current code runs first (0: none)
+	c0Arg        *big.Int               // amount C0's current code forwards to KM (nil: C0 does not call KM)
 }
 
 func newWorld(r *hx.Rng, withTokenCode bool) *world {
@@ -1179,15 +1180,49 @@ func (w *world) setupMiners() {
 	pid := []byte{0x70, 0x70}
 	pm := types.Miner{Id: pid, PublicKey: []byte{1}, VrfPublicKey: []byte{2}, Type: common.MinerTypeProposer, Stake: 2000, Account: w.T[1].Bytes()}
 	pd, _ := json.Marshal(pm)
+	// reward families: several miners paid to ONE account, with unequal stakes. An account may control one miner only, but
+	// the registry's account check walks committed entries (property C20), so applications inside one block all pass:
+	//   0: one validator, one proposer, distinct accounts      1: two validators of the group share account A
+	//   2: a validator shares the block proposer's account      3: two validators and the block proposer share one account
+	w.rewardFamily = nWorlds % 4
+	acctA := nx.Addr(0x5a)
+	w.base = append(w.base, acctA)
+	txs := []*types.Transaction{nx.NewTx(types.TransactionTypeMinerApply, nx.AddrHex(w.S[0]), "", string(pd), "")}
+	v2, v3 := []byte{0x76, 0x32}, []byte{0x76, 0x33}
+	mk := func(vid []byte, stake uint64, acct common.Address) {
+		vm := types.Miner{Id: vid, PublicKey: []byte{1}, VrfPublicKey: []byte{2}, Type: common.MinerTypeValidator, Stake: stake, Account: acct.Bytes()}
+		vd, _ := json.Marshal(vm)
+		txs = append(txs, nx.NewTx(types.TransactionTypeMinerApply, nx.AddrHex(w.S[0]), "", string(vd), ""))
+		w.minerId = append(w.minerId, vid)
+	}
+	members := [][]byte{id}
+	switch w.rewardFamily {
+	case 1:
+		mk(v2, 500, acctA)
+		mk(v3, 700, acctA)
+		members = [][]byte{id, v2, v3}
+	case 2:
+		mk(v2, 450, w.T[1])
+		members = [][]byte{id, v2}
+	case 3:
+		mk(v2, 500, w.T[1])
+		mk(v3, 1300, w.T[1])
+		members = [][]byte{v2, v3}
+	}
 	w.h++
-	rs = nx.RunBlock(w.World, w.h, nil, nx.NewTx(types.TransactionTypeMinerApply, nx.AddrHex(w.S[0]), "", string(pd), ""))
-	if len(rs) != 1 || rs[0].Status != 1 {
-		panic("setup: proposer apply failed: " + rs[0].Msg)
+	rs = nx.RunBlock(w.World, w.h, nil, txs...)
+	for _, rc := range rs {
+		if rc.Status != 1 {
+			panic("setup: miner apply failed: " + rc.Msg)
+		}
+	}
+	if len(rs) != len(txs) {
+		panic("setup: receipts missing")
 	}
 	w.minerId = append(w.minerId, pid)
 	w.proposerId = pid
 	w.groupId = []byte{0x67, 0x31}
-	nx.Groups[string(w.groupId)] = &types.Group{Id: w.groupId, Members: [][]byte{id}}
+	nx.Groups[string(w.groupId)] = &types.Group{Id: w.groupId, Members: members}
 	w.Boundary()
 }
 
@@ -1726,6 +1761,23 @@ func (w *world) step(r *hx.Rng, res *hx.Result, cs *hx.Cases) {
 		// every transaction balanced on its own: the after() phase (RefundManager.Add / reward / CheckAndMove) lost or created value
 		violate(res, "C06/block:after-phase", "the block's transactions balance one by one but the block as a whole does not: unexplained "+bdelta.String(), binput)
 	}
+	if withReward && reward.Sign() > 0 {
+		// whatever the miner -> account map, a block never schedules more than the per-block reward of its height:
+		// T = 7350000 * (23/25)^epoch * (2/25) / blocksPerEpoch tokens (float64 slack: 2^-40 relative + 64 wei)
+		bpe := int64(common.GetBlocksPerEpoch())
+		epoch := int64(hd) / bpe
+		t := new(big.Rat).SetFrac(new(big.Int).Mul(big.NewInt(7350000*2), new(big.Int).Exp(big.NewInt(23), big.NewInt(epoch), nil)),
+			new(big.Int).Mul(new(big.Int).Exp(big.NewInt(25), big.NewInt(epoch+1), nil), big.NewInt(bpe)))
+		t.Mul(t, new(big.Rat).SetInt(e18))
+		limit := new(big.Int).Quo(t.Num(), t.Denom())
+		limit.Add(limit, new(big.Int).Rsh(limit, 40))
+		limit.Add(limit, big.NewInt(64))
+		if reward.Cmp(limit) > 0 {
+			binput["scheduled_reward_of_height"] = limit.String()
+			binput["reward_family"] = w.rewardFamily
+			violate(res, fmt.Sprintf("C06/reward:exceeds-scheduled:family%d", w.rewardFamily), "the block scheduled "+reward.String()+" wei of rewards, more than the per-block reward of its height", binput)
+		}
+	}
 	if withReward && reward.Sign() < 0 {
 		violate(res, "C06/reward:negative", "the escrow at the reward height shrank", binput)
 	}
@@ -1809,14 +1861,12 @@ func (w *world) step(r *hx.Rng, res *hx.Result, cs *hx.Cases) {
 			ps = append(ps, fmt.Sprintf("(%d%%N, %d)", idx(acct), pm[id]))
 		}
 		if g := nx.Groups[string(groupId)]; g != nil {
-			_, vm := service.MinerManagerImpl.GetValidatorsStake(g.Members, adb)
-			var vas []common.Address
-			for a := range vm {
-				vas = append(vas, a)
-			}
-			sort.Slice(vas, func(i, j int) bool { return vas[i].GetHexString() < vas[j].GetHexString() })
-			for _, a := range vas {
-				vs = append(vs, fmt.Sprintf("(%d%%N, %d)", idx(a), vm[a]))
+			// one (account, stake) entry per group member, read per miner: the per-account sums and the denominator are
+			// the specification's (Model.per_account), not the code's GetValidatorsStake
+			for _, member := range g.Members {
+				if m := service.MinerManagerImpl.GetMinerById(member, common.MinerTypeValidator, adb); m != nil && m.Stake != 0 {
+					vs = append(vs, fmt.Sprintf("(%d%%N, %d)", idx(common.BytesToAddress(m.Account)), m.Stake))
+				}
 			}
 		}
 		rinfo = fmt.Sprintf("(Some (%d, %d, %d%%N, [%s], [%s]))", hd, common.GetBlocksPerEpoch(), idx(castor), strings.Join(ps, "; "), strings.Join(vs, "; "))
